@@ -103,6 +103,9 @@ package sugardb
 //@   ensures {C08} caches: cachewf(server, dbof(ctx))
 //@   ensures {C04,C08} removed: result == nil ==> !has(server.store[dbof(ctx)], key)
 //@   ensures {C20} otherkeys: forall k string :: k != key ==> (has(server.store[dbof(ctx)], k) <==> old(has(server.store[dbof(ctx)], k))) && server.store[dbof(ctx)][k] == old(server.store[dbof(ctx)][k])
+//@   ensures {C01} card: len(server.store[dbof(ctx)]) == old(len(server.store[dbof(ctx)])) - ((result == nil && old(has(server.store[dbof(ctx)], key))) ? 1 : 0)
+//@   ensures {C01} succeeds: memok(old(server.store[dbof(ctx)][key].Value)) ==> result == nil
+//@   ensures boolmaps: forall m map[string]bool, k string :: allocated(m) && m != old(server.lfuCache.cache[dbof(ctx)].keys) && m != old(server.lruCache.cache[dbof(ctx)].keys) ==> (has(m, k) <==> old(has(m, k))) && m[k] == old(m[k])
 //@   ensures {C08} unindexed: result == nil && old(has(server.store[dbof(ctx)], key)) ==> !(exists i int :: 0 <= i && i < len(server.keysWithExpiry.keys[dbof(ctx)]) && server.keysWithExpiry.keys[dbof(ctx)][i] == key)
 //@   ensures {C19} accounting: result == nil ==> server.memUsed == old(server.memUsed) - (old(has(server.store[dbof(ctx)], key)) ? entrymem(old(server.store[dbof(ctx)][key]), key) : 0)
 //@   ensures {C19} failed: result != nil ==> server.memUsed == old(server.memUsed) && (forall k string :: (has(server.store[dbof(ctx)], k) <==> old(has(server.store[dbof(ctx)], k)))) && server.store[dbof(ctx)][key] == old(server.store[dbof(ctx)][key])
@@ -214,6 +217,9 @@ package sugardb
 //@   ensures {C04,C08} removed: result == nil ==> !has(server.store[dbof(ctx)], key)
 //@   ensures {C20} otherkeys: forall k string :: k != key ==> (has(server.store[dbof(ctx)], k) <==> old(has(server.store[dbof(ctx)], k))) && server.store[dbof(ctx)][k] == old(server.store[dbof(ctx)][k])
 //@   ensures {C19} accounting: result == nil ==> server.memUsed == old(server.memUsed) - (old(has(server.store[dbof(ctx)], key)) ? entrymem(old(server.store[dbof(ctx)][key]), key) : 0)
+//@   ensures {C01} card: len(server.store[dbof(ctx)]) == old(len(server.store[dbof(ctx)])) - ((result == nil && old(has(server.store[dbof(ctx)], key))) ? 1 : 0)
+//@   ensures {C01} deleted: memok(old(server.store[dbof(ctx)][key].Value)) ==> result == nil
+//@   ensures boolmaps: forall m map[string]bool, k string :: allocated(m) && m != old(server.lfuCache.cache[dbof(ctx)].keys) && m != old(server.lruCache.cache[dbof(ctx)].keys) ==> (has(m, k) <==> old(has(m, k))) && m[k] == old(m[k])
 //@   ensures caches: cachewf(server, dbof(ctx))
 //@   ensures {C19} failed: result != nil ==> (forall k string :: (has(server.store[dbof(ctx)], k) <==> old(has(server.store[dbof(ctx)], k)))) && server.store[dbof(ctx)][key] == old(server.store[dbof(ctx)][key])
 //@   modifies server.store[dbof(ctx)][*], server.memUsed, server.keysWithExpiry.keys[*], server.keysWithExpiry.keys[dbof(ctx)][*], heap:F_eviction_CacheLFU_entries, heap:F_eviction_CacheLRU_entries, heap:E_Peviction_EntryLFU, heap:E_Peviction_EntryLRU, heap:Mdom_string_bool, heap:Mval_string_bool, heap:Mcard_string_bool, heap:F_eviction_EntryLFU_index, heap:F_eviction_EntryLRU_index
